@@ -17,6 +17,7 @@ package raft
 import (
 	"context"
 	"net"
+	"os"
 	"path/filepath"
 	"sync"
 	"sync/atomic"
@@ -90,6 +91,11 @@ func New(opt Options, fsm FSM, storageDir string) (*Raft, error) {
 	}
 	if opt.Alerts == nil {
 		opt.Alerts = nopAlerts{}
+	}
+	// an instance created while another one serves would hold the state
+	// as it is now, and Serve would accept it once the other has stopped
+	if _, err := os.Lstat(filepath.Join(storageDir, "lock")); err == nil {
+		return nil, ErrLockExists
 	}
 	store, err := openStorage(storageDir, opt)
 	if err != nil {
